@@ -598,7 +598,7 @@ func (x *c03) replay(path string) {
 		case "rearm":
 			x.timeoutRearmed(kv(f, "kind"))
 		case "closereal":
-			x.closeFlushesReal(kv(f, "kind"), hx.Atoi(kv(f, "k")))
+			x.closeFlushesReal(kv(f, "kind"), hx.Atoi(kv(f, "k")), int64(hx.Atoi("0"+kv(f, "lim"))))
 		case "stall":
 			x.stalledSend(kv(f, "kind"), kv(f, "trigger"), kv(f, "big") == "1")
 		case "tcp":
